@@ -675,7 +675,6 @@ def monitor_windows(items, abc, start_idx=0):
 
 
 KEY_GEOM = "seebuf:line-geometry-accepts-long-last-line"
-KEY_FETCHSUB_EXC = "fetchsubseq:illegal-residue-raises-exception"
 
 
 def last_record_empty(data):
@@ -1537,18 +1536,10 @@ def fetchspike_case(rng, k):
 def monitor_fetchspike(case, out):
     from vlib.engine import Failure
     seqs = case["meta"]["fetchspike"]
-    # known finding: FetchSubseq turns the eslEFORMAT of its read into an eslEINCONCEIVABLE exception
-    known = None
-    masked = list(out)
-    for i, (op, line) in enumerate(zip(case["ops"], out)):
-        if op.startswith("fetchsub ") and line.startswith("einconceivable") and line.endswith(" exc"):
-            known = Failure("monitor", "esl_sqio_FetchSubseq raised an eslEINCONCEIVABLE exception on a record holding a letter outside the alphabet: " + op[:60],
-                            key="C07:" + KEY_FETCHSUB_EXC)
-            masked[i] = "eformat line=-1 msg"
-    f = basic_line_checks(case, masked, Failure)
+    # (regression of 50dd524: FetchSubseq used to turn the eslEFORMAT of its read into an eslEINCONCEIVABLE exception)
+    f = basic_line_checks(case, out, Failure)
     if f:
         return f
-    out = masked
     for data, od, items in sessions(case, out):
         fmt, abc = od.get("fmt"), od.get("abc", "text")
         for op, d, line in items:
@@ -1579,7 +1570,7 @@ def monitor_fetchspike(case, out):
                 s_, e_ = int(d["s"]), int(d["e"]) or len(e)
                 if r["seq"] != e[s_ - 1:e_]:
                     return Failure("monitor", "%s %d..%d: not the slice of the file's legal residues" % (tag, s_, e_))
-    return known
+    return None
 
 
 def record_distribution(ctx, cases):
